@@ -371,15 +371,31 @@ def pointer_tables():
         return _pointer_tables_source()
 
 
+def _builtin_exception_bases():
+    """class -> bases for the built-in exceptions a `json.load` / file read can raise and the classes a handler may name for
+    them, as the running interpreter defines them (so `except ValueError` is known to catch a JSONDecodeError)"""
+    import json
+    out, todo, seen = [], [json.JSONDecodeError, UnicodeDecodeError, RecursionError], set()
+    while todo:
+        c = todo.pop()
+        if c in seen or c in (BaseException, object):
+            continue
+        seen.add(c)
+        out.append((c.__name__, [b.__name__ for b in c.__bases__ if b is not object]))
+        todo.extend(b for b in c.__bases__ if b is not object)
+    return sorted(out)
+
+
 def exception_tables():
     try:
         M = _mod("jsonpath.exceptions")
         out = [(k, [b.__name__ for b in c.__bases__]) for k, c in vars(M).items() if isinstance(c, type) and c.__module__ == M.__name__]
         if not out:
             raise TableError("empty")
-        return out
     except Exception:  # noqa: BLE001
-        return _exception_tables_source()
+        out = _exception_tables_source()
+    have = {k for k, _ in out}
+    return out + [(k, bs) for k, bs in _builtin_exception_bases() if k not in have]
 
 
 def _volatile_constants_source():
@@ -585,7 +601,17 @@ def cli_tables():
         if isinstance(n, ast.FunctionDef) and n.name.startswith("handle_") and n.name.endswith("_command"):
             tries = []
             reads = sorted({a.attr for a in walk(n) if isinstance(a, ast.Attribute) and isinstance(a.value, ast.Name) and a.value.id == "args"})
-            for s in n.body:
+            def top_tries(stmts):
+                """the `try` statements of a handler, in order, also those that stand inside an `if` / `else` / `with`"""
+                for st in stmts:
+                    if isinstance(st, ast.Try):
+                        yield st
+                    elif isinstance(st, ast.If):
+                        yield from top_tries(st.body)
+                        yield from top_tries(st.orelse)
+                    elif isinstance(st, ast.With):
+                        yield from top_tries(st.body)
+            for s in top_tries(n.body):
                 if isinstance(s, ast.Try):
                     hs = []
                     for h in s.handlers:
